@@ -53,7 +53,7 @@ fn main() {
             "    Entry {{ grammar: r####\"{}\"####, class: \"{}\", alphabet: \"{}\", rules: &[{}], run: |r, i| c02core::run_generated::<g{n}::P, g{n}::Rule>(g{n}::rule(r), i) }},",
             g.text,
             g.class,
-            g.alphabet.replace('\n', "\\n"),
+            g.alphabet.chars().flat_map(|c| c.escape_default()).collect::<String>(),
             names.iter().map(|x| format!("\"{x}\"")).collect::<Vec<_>>().join(", ")
         )
         .unwrap();
